@@ -511,8 +511,12 @@ class PropertyRelation(OntologyElement):
         # Compare attributes that cannot produce illegal upgrades because they can
         # be changed freely between versions. We only need to know if they changed.
 
-        for attr in ['description', 'predicate', 'confidence']:
+        for attr in ['description', 'predicate']:
             equal &= old.__attr[attr] == new.__attr[attr]
+
+        # A relation that has no explicit confidence has the default
+        # confidence, which is also what its XML representation shows.
+        equal &= old.get_confidence() == new.get_confidence()
 
         if equal:
             return 0
